@@ -247,7 +247,7 @@ def gen_api(rng, prof=None):
         if src is not None and all(m["name"] != src["name"] for m in services[1]["methods"]):
             twin = copy.deepcopy(src)
             req = _lookup_msg(cx, src["input"])
-            if req is not None and len(req["fields"]) > 1 and rng.random() < 0.6 and not src.get("routing"):
+            if req is not None and len(req["fields"]) > 1 and rng.random() < 0.8 and not src.get("routing"):
                 # a different request type with the same NUMBER of fields (one non-path field renamed)
                 pv = set()
                 import re as _re
@@ -1031,7 +1031,7 @@ def gen_extended_ops_api(rng):
     pkg = f"acme.{name}.v1"
     P = "." + pkg
     host = f"{name}.example.com"
-    scopes = rng.sample(["zone", "region", "global"], rng.randint(1, 3))
+    scopes = rng.sample(["zone", "region", "global"], rng.choice([1, 2, 2, 3, 3]))
     f = {"name": f"acme/{name}/v1/{name}.proto", "package": pkg, "messages": [], "enums": [], "services": []}
     f["messages"].append({"name": "Operation", "enums": [{"name": "Status", "values": [["UNDEFINED_STATUS", 0], ["PENDING", 1], ["RUNNING", 2], ["DONE", 3]]}],
                           "fields": [{"name": "name", "number": 1, "type": "string", "operation_field": "NAME"},
